@@ -2216,6 +2216,7 @@ class op(object):
             for v in self.variables():
                 if not self._variables[v]['i'] and not \
                     self._variables[v]['e']: del self._variables[v]
+                else: self._variables[v]['o'] = False
 
             object.__setattr__(self,'objective',value)
 
